@@ -331,11 +331,9 @@ func (w *cllWalk) do(label string) {
 			(pre.Wl == nil || pre.Wl.Generation != pre.Wl.ObservedGeneration) && pre.Net.StableSel != nil {
 			w.noRevKey = true
 		}
-		// the reconcile that notices a deletion still runs the Progressing branch: a reset of a superseded release running for
-		// a Rollout that is already being deleted deletes the BatchRelease the exit clean-up would have to resume
-		if pre.Ro != nil && pre.Ro.Deleting && pre.Ro.Phase == "Progressing" && cllActivity(pre) == "reset" {
-			w.staleCursor = true
-		}
+		// (the reconcile that notices a deletion still runs the Progressing branch — e.g. a reset of a superseded release — but
+		// since the fix "cursor reset" it clears the cursor that branch leaves: the exit clean-up starts from its first task.
+		// The deletion variant of finding abandonedCleanup is repaired; no flag here, the region is judged at full strength.)
 		// a reset that is abandoned (the workload is back at the released revision, or rolled back) after it has deleted the
 		// BatchRelease leaves a release without BatchRelease: nothing resumes the workload at the end
 		if act := cllActivity(pre); act != "none" {
@@ -343,6 +341,11 @@ func (w *cllWalk) do(label string) {
 				w.staleCursor = true
 			}
 			w.lastAct = act
+		}
+		if !cllCursorSet(pre) {
+			// an empty cursor belongs to nobody: whatever runs next starts from its own first task (this is the state the
+			// reconcile that turns Progressing into Terminating / Disabling leaves since the fix "cursor reset")
+			w.cursorAct = ""
 		}
 		if act := cllActivity(pre); cllCursorSet(pre) && act != "none" && pre.Ro.Sub.FinStep != "end_" {
 			if w.cursorAct == "" {
